@@ -38,6 +38,33 @@ Kinds == LeafKinds \cup SeqBinKinds \cup
 HasQ(d) == d.k \notin {"Count", "Label", "UntypedLabel", "Index", "Branch"}
 
 -----------------------------------------------------------------------------
+(* Quantities.  A quantity either reads one field of the datum (d.q) or is  *)
+(* an expression over the datum's fields (d.qe), the abstract syntax of a   *)
+(* string-expression quantity / of the equivalent Python function (C17):    *)
+(*   [t |-> "f", name]  field      [t |-> "c", v]  constant                 *)
+(*   [t |-> "add" | "sub" | "mul", a, b]   [t |-> "neg", a]                  *)
+(*   [t |-> "lt" | "ge", a, b]   [t |-> "and" | "or", a, b]   [t |-> "not", a] *)
+(* Arithmetic is IEEE-like (HgNum); comparisons with NaN are FALSE; a        *)
+(* boolean used as a quantity counts as 1 / 0.                               *)
+RECURSIVE EvalE(_, _)
+EvalE(e, x) ==
+  CASE e.t = "f" -> x[e.name]
+    [] e.t = "c" -> e.v
+    [] e.t = "add" -> Add(EvalE(e.a, x), EvalE(e.b, x))
+    [] e.t = "sub" -> Sub(EvalE(e.a, x), EvalE(e.b, x))
+    [] e.t = "mul" -> Mul(EvalE(e.a, x), EvalE(e.b, x))
+    [] e.t = "neg" -> Neg(EvalE(e.a, x))
+    [] e.t = "lt" -> Lt(EvalE(e.a, x), EvalE(e.b, x))
+    [] e.t = "ge" -> Ge(EvalE(e.a, x), EvalE(e.b, x))
+    [] e.t = "and" -> EvalE(e.a, x) /\ EvalE(e.b, x)
+    [] e.t = "or" -> EvalE(e.a, x) \/ EvalE(e.b, x)
+    [] e.t = "not" -> ~EvalE(e.a, x)
+BoolE(e) == e.t \in {"lt", "ge", "and", "or", "not"}
+QV(d, x) == IF "qe" \in DOMAIN d
+            THEN (IF BoolE(d.qe) THEN (IF EvalE(d.qe, x) THEN Q(1) ELSE Q(0)) ELSE EvalE(d.qe, x))
+            ELSE x[d.q]
+
+-----------------------------------------------------------------------------
 (* Zero(d): the empty aggregator for descriptor d (every constructor and    *)
 (* every zero())                                                            *)
 RECURSIVE Zero(_)
@@ -103,7 +130,7 @@ IrrIndex(ths, x) ==
 (* Categorize: None / NaN go to the "NaN" category                           *)
 CatOf(cat) == IF cat = "None" THEN "NaN" ELSE cat
 
-BagKey(d, x) == CASE d.range = "N"  -> KeyN(x[d.q])
+BagKey(d, x) == CASE d.range = "N"  -> KeyN(QV(d, x))
                   [] d.range = "N2" -> KeyN(x.x) \o "," \o KeyN(x.y)
                   [] d.range = "S"  -> "s:" \o x.c
 
@@ -127,14 +154,14 @@ FillM(c, d, x, w, m) ==
     [] d.k = "Sum" ->
          (* named deviation Dev_SumNumpyDropsNaN (mode "npsum"): the vectorised Sum counts a row whose
             quantity is NaN in entries but leaves it out of the sum *)
-         IF m = "npsum" /\ IsNaN(x[d.q]) THEN [c EXCEPT !.e = e1]
-         ELSE [c EXCEPT !.e = e1, !.s = Add(@, Mul(x[d.q], w))]
+         IF m = "npsum" /\ IsNaN(QV(d, x)) THEN [c EXCEPT !.e = e1]
+         ELSE [c EXCEPT !.e = e1, !.s = Add(@, Mul(QV(d, x), w))]
     [] d.k = "Average" ->
-         LET q == x[d.q]
+         LET q == QV(d, x)
              m0 == IF c.e = Q(0) THEN q ELSE c.mean
          IN [c EXCEPT !.e = e1, !.mean = MeanStep(m0, q, w, e1)]
     [] d.k = "Deviate" ->
-         LET q == x[d.q]
+         LET q == QV(d, x)
              m0 == IF c.e = Q(0) THEN q ELSE c.mean
              v0 == IF c.e = Q(0) THEN Q(0) ELSE c.vte
              m1 == MeanStep(m0, q, w, e1)
@@ -142,53 +169,53 @@ FillM(c, d, x, w, m) ==
                    ELSE Add(v0, Mul(Mul(w, Sub(q, m0)), Sub(q, m1)))
          IN [c EXCEPT !.e = e1, !.mean = m1, !.vte = v1]
     [] d.k = "Minimize" ->
-         LET q == x[d.q] IN [c EXCEPT !.e = e1, !.min = IF IsNaN(@) \/ Lt(q, @) THEN q ELSE @]
+         LET q == QV(d, x) IN [c EXCEPT !.e = e1, !.min = IF IsNaN(@) \/ Lt(q, @) THEN q ELSE @]
     [] d.k = "Maximize" ->
-         LET q == x[d.q] IN [c EXCEPT !.e = e1, !.max = IF IsNaN(@) \/ Gt(q, @) THEN q ELSE @]
+         LET q == QV(d, x) IN [c EXCEPT !.e = e1, !.max = IF IsNaN(@) \/ Gt(q, @) THEN q ELSE @]
     [] d.k = "Bag" ->
          LET key == BagKey(d, x)
          IN [c EXCEPT !.e = e1,
                       !.vals = Put(@, key, IF key \in DOMAIN @ THEN Add(@[key], w) ELSE w)]
     [] d.k = "Bin" ->
-         LET q == x[d.q] IN
+         LET q == QV(d, x) IN
          IF IsNaN(q) THEN [c EXCEPT !.e = e1, !.nan = FillM(@, d.nan, x, w, m)]
          ELSE IF Lt(q, c.lo) THEN [c EXCEPT !.e = e1, !.under = FillM(@, d.under, x, w, m)]
          ELSE IF Ge(q, c.hi) THEN [c EXCEPT !.e = e1, !.over = FillM(@, d.over, x, w, m)]
          ELSE LET i == BinIndex(c, q) + 1
               IN [c EXCEPT !.e = e1, !.vals[i] = FillM(@, d.value, x, w, m)]
     [] d.k = "SparselyBin" ->
-         LET q == x[d.q] IN
+         LET q == QV(d, x) IN
          IF IsNaN(q) THEN [c EXCEPT !.e = e1, !.nan = FillM(@, d.nan, x, w, m)]
          ELSE LET key == SparseKey(c, q)
                   old == IF key \in DOMAIN c.bins THEN c.bins[key] ELSE Zero(d.value)
               IN [c EXCEPT !.e = e1, !.bins = Put(@, key, FillM(old, d.value, x, w, m))]
     [] d.k = "CentrallyBin" ->
-         LET q == x[d.q] IN
+         LET q == QV(d, x) IN
          IF IsNaN(q) THEN [c EXCEPT !.e = e1, !.nan = FillM(@, d.nan, x, w, m)]
          ELSE LET i == CentralIndex(c.centers, q)
               IN [c EXCEPT !.e = e1, !.bins[i] = FillM(@, d.value, x, w, m)]
     [] d.k = "IrregularlyBin" ->
-         LET q == x[d.q] IN
+         LET q == QV(d, x) IN
          IF IsNaN(q) THEN [c EXCEPT !.e = e1, !.nan = FillM(@, d.nan, x, w, m)]
          ELSE LET i == IrrIndex(c.ths, q)
               IN IF i = 0 THEN [c EXCEPT !.e = e1]
                  ELSE [c EXCEPT !.e = e1, !.bins[i] = FillM(@, d.value, x, w, m)]
     [] d.k = "Stack" ->
-         LET q == x[d.q] IN
+         LET q == QV(d, x) IN
          IF IsNaN(q) THEN [c EXCEPT !.e = e1, !.nan = FillM(@, d.nan, x, w, m)]
          ELSE [c EXCEPT !.e = e1,
                         !.bins = [i \in DOMAIN @ |-> IF Ge(q, c.ths[i]) THEN FillM(@[i], d.value, x, w, m)
                                                      ELSE @[i]]]
     [] d.k = "Categorize" ->
-         LET key == CatOf(x[d.q])
+         LET key == CatOf(QV(d, x))
              old == IF key \in DOMAIN c.bins THEN c.bins[key] ELSE Zero(d.value)
          IN [c EXCEPT !.e = e1, !.bins = Put(@, key, FillM(old, d.value, x, w, m))]
     [] d.k = "Fraction" ->
-         LET ws == Mul(x[d.q], w)
+         LET ws == Mul(QV(d, x), w)
          IN [c EXCEPT !.e = e1, !.den = FillM(@, d.value, x, w, m),
                       !.num = IF Gt(ws, Q(0)) THEN FillM(@, d.value, x, ws, m) ELSE @]
     [] d.k = "Select" ->
-         LET ws == Mul(x[d.q], w)
+         LET ws == Mul(QV(d, x), w)
          IN [c EXCEPT !.e = e1, !.cut = IF Gt(ws, Q(0)) THEN FillM(@, d.cut, x, ws, m) ELSE @]
     [] d.k \in {"Label", "UntypedLabel"} ->
          [c EXCEPT !.e = e1, !.pairs = [key \in DOMAIN @ |-> FillM(@[key], d.pairs[key], x, w, m)]]
@@ -215,43 +242,43 @@ Raises(c, d, x, w) ==
     [] d.k \in {"Sum", "Average", "Deviate", "Minimize", "Maximize", "Bag"} -> d.fid = x.fa
     [] d.k = "Bin" ->
          d.fid = x.fa \/
-         LET q == x[d.q] IN
+         LET q == QV(d, x) IN
          IF IsNaN(q) THEN Raises(c.nan, d.nan, x, w)
          ELSE IF Lt(q, c.lo) THEN Raises(c.under, d.under, x, w)
          ELSE IF Ge(q, c.hi) THEN Raises(c.over, d.over, x, w)
          ELSE Raises(c.vals[BinIndex(c, q) + 1], d.value, x, w)
     [] d.k = "SparselyBin" ->
          d.fid = x.fa \/
-         LET q == x[d.q] IN
+         LET q == QV(d, x) IN
          IF IsNaN(q) THEN Raises(c.nan, d.nan, x, w)
          ELSE LET key == SparseKey(c, q)
               IN Raises(IF key \in DOMAIN c.bins THEN c.bins[key] ELSE Zero(d.value), d.value, x, w)
     [] d.k = "CentrallyBin" ->
          d.fid = x.fa \/
-         LET q == x[d.q] IN
+         LET q == QV(d, x) IN
          IF IsNaN(q) THEN Raises(c.nan, d.nan, x, w)
          ELSE Raises(c.bins[CentralIndex(c.centers, q)], d.value, x, w)
     [] d.k = "IrregularlyBin" ->
          d.fid = x.fa \/
-         LET q == x[d.q] IN
+         LET q == QV(d, x) IN
          IF IsNaN(q) THEN Raises(c.nan, d.nan, x, w)
          ELSE LET i == IrrIndex(c.ths, q) IN IF i = 0 THEN FALSE ELSE Raises(c.bins[i], d.value, x, w)
     [] d.k = "Stack" ->
          d.fid = x.fa \/
-         LET q == x[d.q] IN
+         LET q == QV(d, x) IN
          IF IsNaN(q) THEN Raises(c.nan, d.nan, x, w)
          ELSE \E i \in DOMAIN c.bins : Ge(q, c.ths[i]) /\ Raises(c.bins[i], d.value, x, w)
     [] d.k = "Categorize" ->
          d.fid = x.fa \/
-         LET key == CatOf(x[d.q])
+         LET key == CatOf(QV(d, x))
          IN Raises(IF key \in DOMAIN c.bins THEN c.bins[key] ELSE Zero(d.value), d.value, x, w)
     [] d.k = "Fraction" ->
          d.fid = x.fa \/
-         LET ws == Mul(x[d.q], w)
+         LET ws == Mul(QV(d, x), w)
          IN Raises(c.den, d.value, x, w) \/ (Gt(ws, Q(0)) /\ Raises(c.num, d.value, x, ws))
     [] d.k = "Select" ->
          d.fid = x.fa \/
-         LET ws == Mul(x[d.q], w) IN Gt(ws, Q(0)) /\ Raises(c.cut, d.cut, x, ws)
+         LET ws == Mul(QV(d, x), w) IN Gt(ws, Q(0)) /\ Raises(c.cut, d.cut, x, ws)
     [] d.k \in {"Label", "UntypedLabel"} ->
          \E key \in DOMAIN d.pairs : Raises(c.pairs[key], d.pairs[key], x, w)
     [] d.k \in {"Index", "Branch"} ->
